@@ -912,6 +912,71 @@ def check_scriptsig_encoding(chk, F, rid="R17.14"):
     chk.floor(rid, "cases", n, 16)
 
 
+# ---- R17.16 the scriptSig size a plan announces -----------------------------------------------------------------------------------------
+
+def check_scriptsig_size(chk, F, rid="R17.16"):
+    import itertools
+    from ..interp import Machine, Adt, PyVec, Panic, ok, some, NONE
+    from ..builtins import deref
+    from . import weights
+    chk.rule(rid, "Plan::scriptsig_size is not smaller than the scriptSig Plan::satisfy builds, length prefix included: for "
+                  "bare / pkh the pushes of the template's elements, for sh(ms) those plus the push of the redeem script (push "
+                  "opcode sizes crossing 75/76 and 255/256), each with the compact-size prefix of the total (crossing 252/253); "
+                  "24 / 36 bytes for sh(wpkh) / sh(wsh); 1 (the empty scriptSig's prefix) for native segwit and taproot")
+    try:
+        ss = F.fn("scriptsig_size", file="plan.rs", container="Plan<")
+        desc_type = F.fn("desc_type", file="descriptor/mod.rs")
+        explicit = F.fn("explicit_script", file="descriptor/mod.rs")
+        segv = F.fn("segwit_version", file="descriptor/mod.rs")
+    except KeyError as e:
+        chk.fail(rid, "anchor", "missing anchor %s" % e, kind="unanalysable")
+        return
+    chk.saw(ss)
+    DT = "descriptor::DescriptorType"
+    state = {}
+    hooks = {desc_type: lambda m_, a, c: Adt(DT, state["dt"], {}),
+             explicit: lambda m_, a, c: ok(("script-of-len", state["S"])),
+             "bitcoin::ScriptBuf::len": lambda m_, a, c: deref(a[0])[1],
+             "bitcoin::Script::len": lambda m_, a, c: deref(a[0])[1]}
+    for q in F.fns:
+        if q.endswith("ItemSize>::size") and "Placeholder" in q:
+            hooks[q] = lambda m_, a, c: deref(a[0])[1]
+    hooks["util::ItemSize::size"] = lambda m_, a, c: deref(a[0])[1]
+    m = Machine(F, strict=True, hooks=hooks)
+    n = 0
+    bad = {}
+    try:
+        for dt in F.variants(DT):
+            for items, S in itertools.product(([73], [73, 34], [73, 73, 2], [73, 73, 73, 1], [73] * 4, [66] * 20), (25, 75, 76, 252, 255, 256, 520)):
+                state.update(dt=dt, S=S)
+                plan = Adt("plan::Plan", "Plan", {"template": PyVec([("item", k) for k in items]), "absolute_timelock": NONE,
+                                                  "relative_timelock": NONE, "descriptor": Term("descriptor")})
+                got = m.call_callee({"def": ss, "resolved": ss, "name": "scriptsig_size", "targs": ["PK"]}, [plan])
+                n += 1
+                if dt in ("Bare", "Pkh"):
+                    c_ = sum(items)
+                    want = weights.varint(c_) + c_
+                elif dt == "Sh":
+                    c_ = sum(items) + weights.push_size(S) + S
+                    want = weights.varint(c_) + c_
+                elif dt == "ShWpkh":
+                    want = 24
+                elif dt == "ShWsh":
+                    want = 36
+                else:
+                    want = 1
+                if not (isinstance(got, int) and got >= want):
+                    bad.setdefault(dt, []).append("elements %r, script %d bytes: announced %r, the scriptSig takes %d" % (items, S, got, want))
+        for dt in F.variants(DT):
+            v = bad.get(dt, [])
+            chk.obligation(rid, not v, dt, "%d case(s); first: %s" % (len(v), v[0] if v else ""), F.fns[ss]["span"], detail=v[:6])
+    except Unsupported as e:
+        chk.fail(rid, "unanalysable", "unanalysable: %s" % e, where=e.where, kind="unanalysable")
+    except Panic as e:
+        chk.fail(rid, "panic", "panic: %s" % e, where="src/plan.rs")
+    chk.floor(rid, "cases", n, 300)
+
+
 def run(chk):
     F = chk.facts()
     chk.explanation = (
@@ -951,6 +1016,7 @@ def run(chk):
     chk.guard("R17.12", "completion-loop", check_completion_loop, chk, F)
     chk.guard("R17.13", "into-assets", check_into_assets, chk, F)
     chk.guard("R17.14", "scriptsig-encoding", check_scriptsig_encoding, chk, F)
+    chk.guard("R17.16", "scriptsig-size", check_scriptsig_size, chk, F)
     # the locks a plan reports are merged part by part (rule shared with C03)
     from . import c03
     chk.guard("R17.15", "lock-merge", c03.check_lock_merge, chk, F, "R17.15")
